@@ -62,6 +62,8 @@ def build_problem(case):
         s[0] = 1.0
         Am = (U * s) @ V.conj().T
         Aop = sp.linop.MatMul([n, 1], Am.astype(dt))
+        if case.get("adjform"):
+            Aop = sp.linop.MatMul([n, 1], np.ascontiguousarray(Am.conj().T).astype(dt), adjoint=True)
     elif kind == "identity":
         Am = np.eye(n, dtype=dt)
         Aop = sp.linop.Identity([n, 1])
@@ -286,8 +288,13 @@ def _solve_all(r, case, P, tag):
         np.random.seed(case["seed"] % (2 ** 31))
         state = np.random.get_state()
         try:
-            app = sp.app.LinearLeastSquares(P["Aop"], P["y"], x=x_in, proxg=P["proxg"], lamda=P["lamda"], G=P["Gop"], z=P["z"],
-                                            solver=solver, max_iter=mi, tol=0, show_pbar=False, **kw)
+            if case.get("positional"):
+                # the documented positional order (A, y, x, proxg, lamda, G, g, z, solver, max_iter)
+                app = sp.app.LinearLeastSquares(P["Aop"], P["y"], x_in, P["proxg"], P["lamda"], P["Gop"], None, P["z"], solver, mi,
+                                                tol=0, show_pbar=False, **kw)
+            else:
+                app = sp.app.LinearLeastSquares(P["Aop"], P["y"], x=x_in, proxg=P["proxg"], lamda=P["lamda"], G=P["Gop"], z=P["z"],
+                                                solver=solver, max_iter=mi, tol=0, show_pbar=False, **kw)
             x = app.run()
         except ValueError as e:
             if must_raise:
@@ -369,6 +376,9 @@ def st_case(draw):
         "layout": draw(st.sampled_from(["c", "c", "strided", "column"])),
         # overall magnitude of A (the same problem in other units), exact powers of two
         "ascale": draw(st.sampled_from([1.0] * 5 + [2.0 ** -17, 2.0 ** -17, 2.0 ** 17])),
+        "positional": draw(st.sampled_from([False, False, True])),
+        # A = MatMul(S, adjoint=True) with S = A^H (the same map, the other constructor form)
+        "adjform": draw(st.sampled_from([False, False, False, True])),
     }
     if c["proxg"] == "box":
         c["cplx"] = False
